@@ -202,13 +202,54 @@ def nvalJoin : NVal → Str
   | .str s => s
   | .list l => joinWith [32] l
 
-/-- `match_attributes`. -/
+/-- `match_attribute_name` (a generator since the repair of `[*|a op v]`): the normalised value of
+    EVERY attribute the name test designates, in document order of `e.attrs`.  The designation
+    predicate is the one of `matchAttributeName`, with `List.filter` in place of `List.find?`. -/
+def matchAttributeValues (c : Ctx) (e : Elem) (attr : Str) (pfx : Str) : List NVal :=
+  if c.supportsNamespaces then
+    let nsOpt : Option (Option Str) :=     -- `none` = early `return`
+      if !pfx.isEmpty then
+        match c.nsGet pfx with
+        | some u => some (some u)
+        | none => if pfx != "*".toStr then none else some none
+      else some none
+    match nsOpt with
+    | none => []
+    | some ns =>
+      let star := pfx == "*".toStr
+      (e.attrs.filter fun a =>
+        if (ns.isNone && !star) || (star && a.kns.isNone) then
+          -- compare the whole attribute name
+          if c.isXml then attr == a.key else lower attr == lower a.key
+        else
+          match a.kns with
+          | none => false
+          | some kn =>
+            if ns != some kn && !star then false
+            else
+              match a.kname with
+              | some nm => if c.isXml then attr == nm else lower attr == lower nm
+              | none => false).map (fun a => normalizeValue a.val)
+  else
+    (e.attrs.filter fun a => lower attr == lower a.key).map (fun a => normalizeValue a.val)
+
+/-- The first yielded value is what `matchAttributeName` (the former, first-only lookup) returns. -/
+theorem matchAttributeName_eq_head? (c : Ctx) (e : Elem) (a p : Str) :
+    matchAttributeName c e a p = (matchAttributeValues c e a p).head? := by
+  unfold matchAttributeName matchAttributeValues
+  split
+  · dsimp only
+    split
+    · rfl
+    · rw [List.head?_map, List.head?_filter]
+  · rw [List.head?_map, List.head?_filter]
+
+/-- `match_attributes`: every attribute selector is satisfied by SOME designated attribute
+    (`for temp in self.match_attribute_name(...)` … `break` / `else: match = False`). -/
 def matchAttributes (c : Ctx) (e : Elem) (attrs : List AttrSel) : Bool :=
   attrs.all fun a =>
-    match matchAttributeName c e a.attrName a.pfx with
-    | none => false
-    | some v =>
-      let pat := if c.isXml && a.xmlTypePattern.isSome then a.xmlTypePattern else a.pattern
+    let pat := if c.isXml && a.xmlTypePattern.isSome then a.xmlTypePattern else a.pattern
+    (matchAttributeValues c e a.attrName a.pfx).any fun v =>
       match pat with
       | none => true
       | some r => Rx.isMatch c.env r (nvalJoin v)
@@ -334,7 +375,9 @@ def findBidiKids (c : Ctx) : List Node → Option Nat
         | none => findBidiKids c ks
 end
 
-def findBidi (c : Ctx) (l : Loc) : Option Nat := findBidiKids c l.focus.kids
+/-- `find_bidi(el)`: `get_children(el, no_iframe=True)` yields nothing when `el` itself is an iframe. -/
+def findBidi (c : Ctx) (l : Loc) : Option Nat :=
+  if c.locIsIframe l then none else findBidiKids c l.focus.kids
 
 /-- `match_dir(el, directionality)`; the recursion on the parent is a walk over
     `el :: ancestors` (with `no_iframe=True`). -/
